@@ -1,4 +1,5 @@
 import NunavutVerif.Lemmas.Cli
+import NunavutVerif.Lemmas.CliParse
 /-!
 # C08 — listing and dry-run modes tell the build system the truth
 
@@ -27,7 +28,7 @@ theorem C08_list_outputs_eq_generated (a : Args) (es : List Entry)
     ∀ p, p ∈ (run .listOutputs a es).outputs ↔ p ∈ generated a es := by
   unfold generated run runWith at *
   by_cases hacc : accepted a = true
-  · simp only [hacc, Bool.not_true, Bool.false_eq_true, if_false] at hgen ⊢
+  · simp only [hacc, Bool.not_true, Bool.false_eq_true, if_false, reduceCtorEq, ↓reduceIte] at hgen ⊢
     cases htree : buildTree a (treeEntries a es) with
     | error x => simp [htree] at hgen
     | ok tree =>
@@ -50,7 +51,7 @@ theorem C08_modes_succeed_together (a : Args) (es : List Entry) :
     ((run .dryRun a es).err = none ↔ (run .generate a es).err = none) := by
   unfold run runWith
   by_cases hacc : accepted a = true
-  · simp only [hacc, Bool.not_true, Bool.false_eq_true, if_false]
+  · simp only [hacc, Bool.not_true, Bool.false_eq_true, if_false, reduceCtorEq, ↓reduceIte]
     cases htree : buildTree a (treeEntries a es) with
     | error x => simp
     | ok tree =>
@@ -68,7 +69,7 @@ theorem C08_generated_characterised (a : Args) (es : List Entry) (tree : List (E
     ∃ sup, (supportOut a false a.omitSer).res = .ok sup ∧
       generated a es = sup ++ (if a.genSupport != .only then (selected a tree).map (·.2) else []) := by
   unfold generated run runWith at *
-  simp only [hacc, Bool.not_true, Bool.false_eq_true, if_false, htree] at hgen ⊢
+  simp only [hacc, Bool.not_true, Bool.false_eq_true, if_false, reduceCtorEq, ↓reduceIte, htree] at hgen ⊢
   obtain ⟨ls, lt, hs, ht, hops⟩ := generate_ok a false tree hgen
   refine ⟨ls, hs, ?_⟩
   rw [hops, written_append, supportOut_written a a.omitSer ls hs, typesOut_written a tree lt ht,
@@ -86,7 +87,7 @@ theorem C08_list_outputs_prints_generator_paths (a : Args) (es : List Entry) (tr
       (run .listOutputs a es).outputs =
         (if a.genSupport != .only then (selected a tree).map (·.2) else []) ++ sup := by
   unfold run runWith at *
-  simp only [hacc, Bool.not_true, Bool.false_eq_true, if_false, htree, listOutputsOnly] at hok ⊢
+  simp only [hacc, Bool.not_true, Bool.false_eq_true, if_false, reduceCtorEq, ↓reduceIte, htree, listOutputsOnly] at hok ⊢
   obtain ⟨⟨ls, hs⟩, ⟨lt, ht⟩⟩ := (listOutputsWith_err_none_iff a a.omitSer tree).1 hok
   refine ⟨ls, hs, ?_⟩
   simp only [listOutputsWith, ht, hs, listOf]
@@ -112,27 +113,29 @@ theorem C08_history_listing_eq_generated (ms : List Mode) (a : Args) (es : List 
 
 /-! ## T2 — listing and dry-run modes touch nothing -/
 
-/-- T2: the operation log of `--list-outputs`, `--list-inputs` and `--dry-run` is empty — for every argument
-record (accepted or not) and every namespace, also when the run ends in an error. -/
+/-- T2: the operation log of `--list-outputs`, `--list-inputs`, `--list-configuration` and `--dry-run` is empty — for
+every argument record (accepted or not) and every namespace, also when the run ends in an error. -/
 theorem C08_no_fs_ops_unless_generating (m : Mode) (a : Args) (es : List Entry) (hm : m ≠ .generate) :
     (run m a es).ops = [] := by
   unfold run runWith
   by_cases hacc : accepted a = true
   · simp only [hacc, Bool.not_true, Bool.false_eq_true, if_false]
-    cases buildTree a (treeEntries a es) with
+    cases buildTree a (if m = .listConfiguration then [emptyRoot] else treeEntries a es) with
     | error x => rfl
     | ok tree =>
       cases m with
       | listOutputs => exact listOutputsWith_ops a a.omitSer tree
       | listInputs => rfl
+      | listConfiguration => rfl
       | dryRun => exact generate_ops_dry a tree
       | generate => exact absurd rfl hm
   · simp [hacc]
 
-/-- The flag combinations of the command line that reach `_generate` for real: none of the three flags set. -/
-theorem C08_mode_of_flags (lo li dry : Bool) :
-    modeOf lo li dry = .generate ↔ (lo = false ∧ li = false ∧ dry = false) := by
-  cases lo <;> cases li <;> cases dry <;> simp [modeOf]
+/-- The flag combinations of the command line that reach `_generate` for real: none of the four flags set
+(`--list-configuration` is the third branch of the `if`/`elif` chain of `ArgparseRunner.run`). -/
+theorem C08_mode_of_flags (lo li lc dry : Bool) :
+    modeOf lo li lc dry = .generate ↔ (lo = false ∧ li = false ∧ lc = false ∧ dry = false) := by
+  cases lo <;> cases li <;> cases lc <;> cases dry <;> simp [modeOf]
 
 /-! ## T3 — `--list-inputs` names what the run reads -/
 
@@ -145,7 +148,7 @@ theorem C08_list_inputs_covers (a : Args) (es : List Entry) (tree : List (Entry 
       ∀ n ∈ supportResources a a.omitSer, supportTemplateRead a n ∈ (run .listInputs a es).inputs) ∧
     (a.genSupport ≠ .only → ∀ x ∈ selected a tree, x.1.src ∈ (run .listInputs a es).inputs) := by
   unfold run runWith
-  simp only [hacc, Bool.not_true, Bool.false_eq_true, if_false, htree, listInputsOnly, listInputsWith]
+  simp only [hacc, Bool.not_true, Bool.false_eq_true, if_false, reduceCtorEq, ↓reduceIte, htree, listInputsOnly, listInputsWith]
   refine ⟨?_, ?_, ?_⟩
   · intro h f hf
     have : (a.genSupport != .only) = true := by simpa using h
@@ -256,6 +259,133 @@ theorem C08_shipped_support_targets_distinct :
     ∀ l ∈ table, ((l.serSupport ++ l.typeSupport).map pyStem).Nodup ∧ ∀ n ∈ l.serSupport ++ l.typeSupport, n ≠ "" := by
   decide
 
+/-! ## The command line in front of the decision model
+
+`Model/CliParse.lean`: `parseArgv` is the model of `parser.parse_args(argv)` for the parser of the tree under check (table
+`Gen/CliArgs.lean`, regenerated from the real `argparse` object and from cli/__init__.py / cli/runners.py), `stepsOf` the
+actions it takes in order, `cliMain` what `main` + `ArgparseRunner` do with the result.  Quantifier: every argument
+vector (any list of strings). -/
+
+section cli
+open NunavutVerif.CliParse NunavutVerif.Gen.CliArgs
+
+/-- Every command line the parser accepts: the four mode flags hold Booleans, each `True` exactly when an argument string
+was resolved to its action (exact option string, unambiguous abbreviation, `-d`, inside a cluster like `-vd`), and the branch
+`ArgparseRunner.run` takes is `modeOf` of them — what `C08_mode_of_flags` starts from is what the parser delivers. -/
+theorem C08_cli_mode_of_flags (argv : List String) (ns : Namespace) (hp : parseArgv argv = .ok ns) :
+    ∃ steps, stepsOf actions argv = some steps ∧
+      ns.lookup "list_outputs" = some (.bool (steps.any (Step.takes "list_outputs"))) ∧
+      ns.lookup "list_inputs" = some (.bool (steps.any (Step.takes "list_inputs"))) ∧
+      ns.lookup "list_configuration" = some (.bool (steps.any (Step.takes "list_configuration"))) ∧
+      ns.lookup "dry_run" = some (.bool (steps.any (Step.takes "dry_run"))) ∧
+      modeOfNs ns = some (modeOf (steps.any (Step.takes "list_outputs")) (steps.any (Step.takes "list_inputs"))
+        (steps.any (Step.takes "list_configuration")) (steps.any (Step.takes "dry_run"))) := by
+  obtain ⟨steps, hs, _⟩ := parse_ok tableOk_actions hp
+  have h1 := parsed_flag hp hs (d := "list_outputs") (by decide)
+  have h2 := parsed_flag hp hs (d := "list_inputs") (by decide)
+  have h3 := parsed_flag hp hs (d := "list_configuration") (by decide)
+  have h4 := parsed_flag hp hs (d := "dry_run") (by decide)
+  refine ⟨steps, hs, h1, h2, h3, h4, ?_⟩
+  simp only [modeOfNs, runnerMethod, runChain, runElse, h1, h2, h3, h4, truthy]
+  cases steps.any (Step.takes "list_outputs") <;> cases steps.any (Step.takes "list_inputs") <;>
+    cases steps.any (Step.takes "list_configuration") <;> cases steps.any (Step.takes "dry_run") <;> rfl
+
+/-- Every command line the parser accepts satisfies `accepted`: the hypothesis `hacc` of the theorems above is discharged
+by the parser (`_post_process_args` is the rule table `Gen.CliArgs.rejections`), not assumed. -/
+theorem C08_cli_args_accepted (env : Environ) (argv : List String) (ns : Namespace) (a : Args)
+    (hp : parseArgv argv = .ok ns) (ha : toArgs env ns = some a) : accepted a = true := by
+  obtain ⟨_, _, hrej, _, _⟩ := parse_ok tableOk_actions hp
+  obtain ⟨⟨om, hom, homv⟩, ⟨gs, hgs, hgsv⟩, _⟩ := toArgs_fields ha
+  simp only [rejected, rejections, List.any_cons, List.any_nil, Bool.or_false, hom, hgs, Bool.and_eq_false_iff] at hrej
+  unfold accepted
+  rw [homv, hgsv]
+  rcases hrej with h | h
+  · simp [h]
+  · have : gs ≠ .sc (.str "always") := by simpa using h
+    have hne : genSupportOf gs ≠ .always := by
+      unfold genSupportOf
+      split
+      · rename_i s
+        by_cases hs : s = "always"
+        · subst hs; exact absurd rfl this
+        · simp only [hs, if_false]; split <;> (try split) <;> simp
+      · simp
+    cases hg : genSupportOf gs <;> simp_all
+
+/-- What `main` does with an accepted command line is a run of the decision model in the mode the flags select, on an
+accepted argument record: `cliMain` never reaches the `parser-reject` branch of `run`. -/
+theorem C08_cli_main_runs_model (env : Environ) (argv : List String) (es : List Entry) (m : Mode) (a : Args) (r : Run)
+    (h : cliMain env argv es = .ran m a r) :
+    ∃ ns, parseArgv argv = .ok ns ∧ toArgs env ns = some a ∧ modeOfNs ns = some m ∧ r = run m a es ∧
+      accepted a = true := by
+  unfold cliMain at h
+  split at h
+  · cases h
+  · cases h
+  · rename_i ns hp
+    split at h
+    · rename_i a' m' ha hm
+      simp only [MainOut.ran.injEq] at h
+      obtain ⟨rfl, rfl, rfl⟩ := h
+      exact ⟨ns, hp, ha, hm, rfl, C08_cli_args_accepted env argv ns _ hp ha⟩
+    · cases h
+
+/-- T2 from the command line: if the run `main` performs does anything to the disk, then none of `--list-outputs`,
+`--list-inputs`, `--list-configuration`, `--dry-run` (in any spelling the parser resolves to them) was on the command
+line. -/
+theorem C08_cli_no_fs_ops_with_listing_flags (env : Environ) (argv : List String) (es : List Entry) (m : Mode) (a : Args)
+    (r : Run) (h : cliMain env argv es = .ran m a r) (hops : r.ops ≠ []) :
+    ∃ steps, stepsOf actions argv = some steps ∧
+      ∀ d ∈ ["list_outputs", "list_inputs", "list_configuration", "dry_run"], steps.any (Step.takes d) = false := by
+  obtain ⟨ns, hp, _, hm, rfl, _⟩ := C08_cli_main_runs_model env argv es m a r h
+  obtain ⟨steps, hs, _, _, _, _, hmode⟩ := C08_cli_mode_of_flags argv ns hp
+  refine ⟨steps, hs, ?_⟩
+  have hgen : m = .generate := by
+    by_contra hne
+    exact hops (C08_no_fs_ops_unless_generating m a es hne)
+  rw [hm] at hmode
+  simp only [Option.some.injEq] at hmode
+  rw [hgen] at hmode
+  obtain ⟨h1, h2, h3, h4⟩ := (C08_mode_of_flags _ _ _ _).1 hmode.symm
+  intro d hd
+  simp only [List.mem_cons, List.mem_nil_iff, or_false] at hd
+  rcases hd with rfl | rfl | rfl | rfl <;> assumption
+
+/-- T1 from the command line: two command lines that differ only in the mode they select (same argument record) — one
+generating successfully, one listing outputs: the printed list is the set of files the generating one writes. -/
+theorem C08_cli_list_outputs_eq_generated (env : Environ) (argvGen argvList : List String) (es : List Entry) (a : Args)
+    (rg rl : Run) (hg : cliMain env argvGen es = .ran .generate a rg) (hl : cliMain env argvList es = .ran .listOutputs a rl)
+    (hok : rg.err = none) : rl.err = none ∧ ∀ p, p ∈ rl.outputs ↔ p ∈ written rg.ops := by
+  obtain ⟨_, _, _, _, rfl, _⟩ := C08_cli_main_runs_model env argvGen es _ a rg hg
+  obtain ⟨_, _, _, _, rfl, _⟩ := C08_cli_main_runs_model env argvList es _ a rl hl
+  exact C08_list_outputs_eq_generated a es hok
+
+/-- Generated-table obligation: the calls the three run methods make on the two generators are the ones `Model/Cli.lean`
+transcribes — `_list_outputs_only`: types then support, both dry, both with `--omit-serialization-support`;
+`_list_inputs_only`: type templates, support templates, then the sources; `_generate`: support then types with the same four
+keyword values; the guards are `_should_generate_support()` for the support generator and `generate_support != "only"` for
+the type generator, in all three. -/
+theorem C08_runner_calls_as_modelled :
+    calls.map (fun c => (c.method, c.target, c.fn, c.guards)) =
+      [("_list_outputs_only", "_generator", "generate_all", [.notOnly]),
+       ("_list_outputs_only", "_support_generator", "generate_all", [.shouldGenerateSupport]),
+       ("_list_inputs_only", "_generator", "get_templates", [.notOnly]),
+       ("_list_inputs_only", "_support_generator", "get_templates", [.shouldGenerateSupport]),
+       ("_list_inputs_only", "_root_namespace", "get_all_types", [.notOnly, .genNsTypes]),
+       ("_list_inputs_only", "_root_namespace", "get_all_datatypes", [.notOnly, .notGenNsTypes]),
+       ("_generate", "_support_generator", "generate_all", [.shouldGenerateSupport]),
+       ("_generate", "_generator", "generate_all", [.notOnly])] ∧
+    (∀ c ∈ calls, c.method = "_list_outputs_only" →
+      c.kwargs = [("is_dryrun", .const true), ("omit_serialization_support", .arg "omit_serialization_support")]) ∧
+    (∀ c ∈ calls, c.fn = "get_templates" → c.kwargs = [("omit_serialization_support", .arg "omit_serialization_support")]) ∧
+    (∀ c ∈ calls, c.method = "_generate" → c.kwargs.lookup "is_dryrun" = some (.arg "dry_run") ∧
+      c.kwargs.lookup "omit_serialization_support" = some (.arg "omit_serialization_support")) ∧
+    runChain = [("list_outputs", "_list_outputs_only"), ("list_inputs", "_list_inputs_only"),
+      ("list_configuration", "_list_configuration_only")] ∧ runElse = "_generate" := by
+  decide
+
+end cli
+
 /-! ## Witnesses and non-vacuity -/
 
 section witnesses
@@ -283,6 +413,17 @@ example : (run .generate { wArgs with gnt := true } wEntries).err = some .noTemp
     (run .listInputs { wArgs with gnt := true } wEntries).err = none ∧
     (run .generate { wArgs with genSupport := .always, omitSer := true } wEntries).err = some .parserReject := by
   decide
+
+/-- DEFECT (round 2, unchanged code): `--list-outputs --list-configuration` — `run` takes the `--list-outputs` branch, but
+`__init__` has skipped the DSDL front end because `--list-configuration` was given: the printed list lacks every type the
+real run writes.  `runLcBeforeFix` violates T1; the repaired `run` does not depend on the flag. -/
+example :
+    (runLcBeforeFix .listOutputs true wArgs wEntries).err = none ∧
+    (runLcBeforeFix .listOutputs true wArgs wEntries).outputs = [["out", "nunavut", "support", "serialization.h"]] ∧
+    ["out", "app", "Use_1_0.h"] ∈ generated wArgs wEntries ∧
+    ["out", "app", "Use_1_0.h"] ∈ (run .listOutputs wArgs wEntries).outputs ∧
+    (runLcBeforeFix .listInputs true wArgs wEntries).inputs.length = 9 ∧
+    "/ns/app/Use.1.0.dsdl" ∉ (runLcBeforeFix .listInputs true wArgs wEntries).inputs := by decide
 
 /-- DEFECT F1 (unchanged code): `--generate-support only --omit-serialization-support --list-outputs` prints
 `nunavut/support/serialization.h`, the real run creates nothing.  `runBeforeFix` violates T1. -/
